@@ -284,8 +284,8 @@ def subsets(vals):
 def h_expand(ctx):
     seed = core.seed()
     via = ctx.choose("input", ("text", "nc"), free=True)
-    inits = ctx.choose("-i", subsets([0, 6, 12]), free=True)
-    lts = ctx.choose("-lt", subsets([0, 6, 12, 24, 30]), free=True)
+    inits = ctx.choose("-i", subsets([0, 6, 12]) + [(12, 0), (6, 0, 12)], free=True)
+    lts = ctx.choose("-lt", subsets([0, 6, 12, 24, 30]) + [(24, 0, 12, 6), (30, 12, 0), (12, 6), (24, 12, 6, 0), (6, 30, 0)], free=True)
     tod = ctx.choose("input-init-hour", (0, 6), free=True)
     locs = gen.std_locs(2, seed)
     times = [T0 + tod * 3600 + i * DAY for i in range(2)]
@@ -357,7 +357,7 @@ def run(tier, only=None):
         st = explore.explore(h, mode=mode, k=k, params=params, repo_root=core.REPO, time_cap=(300 if tier == "quick" else 3000))
         bound = {"accumulate": "full {text,nc} x 6 windows x 2 axes x -i, dev(%d) over missing cells" % k,
                  "ens2prob": "full {text,nc} x 1-3 members x ordered threshold selections x ordered level selections x -p, dev(%d) over missing obs/member/fcst" % k,
-                 "expandverif": "full {text,nc} x 7 -i subsets x 31 -lt subsets x 2 input init hours, dev(1) missing obs"}[name]
+                 "expandverif": "full {text,nc} x 9 -i lists x 36 -lt lists (ascending subsets and permuted / descending ones) x 2 input init hours, dev(1) missing obs"}[name]
         subs.append(core.Sub.from_e1(name, st, bound=bound, rule="one execution = one script run, every output cell compared with the reference transformation",
                                      required_flags=("pit-missing-obs",) if name == "ens2prob" else (), wall=time.time() - t0))
     return subs
